@@ -51,17 +51,19 @@ Rules3 ==
 
 Grammar(i) ==
     CASE i = 5 -> [rules |-> Rules3, ign |-> <<>>, start |-> "start"]
+      [] i = 9 -> [rules |-> Rules3, ign |-> <<Rgx(RxPlus(Cls(<<sp>>)))>>, start |-> "start"]     \* bytes mode with an ignore pattern
       [] i = 1 -> [rules |-> Rules1, ign |-> <<>>, start |-> "start"]
       [] i = 2 -> [rules |-> Rules1, ign |-> <<Rgx(RxPlus(Cls(<<sp>>)))>>, start |-> "start"]
       [] i = 3 -> [rules |-> Rules2, ign |-> <<>>, start |-> "start"]
       [] i = 4 -> [rules |-> Rules2, ign |-> <<Rgx(RxPlus(Cls(<<sp>>)))>>, start |-> "start"]
 
 Entries(i) == IF i <= 2 THEN <<"start", "X", "Y", "K", "N", "Z", "E", "L", "M", "F", "Sh", "G1", "G2">>
-              ELSE IF i = 5 THEN <<"start", "H", "Body", "R">>
+              ELSE IF i \in {5, 9} THEN <<"start", "H", "Body", "R">>
               ELSE <<"start", "Item", "W", "P", "Q", "T">>
 
 Alpha(i) == CASE i = 1 -> <<a, b>> [] i = 2 -> <<a, b, sp>> [] i = 3 -> <<a, b, 40, 41>> [] i = 4 -> <<a, 40, 41, sp>>
               [] i = 5 -> <<a, b, 10>>
+              [] i = 9 -> <<a, b, sp>>
 
 N == IF Tier = "quick" THEN 4 ELSE 5
 Texts(i) == TextSeqUpTo(Alpha(i), IF i = 1 THEN N + 1 ELSE N)
@@ -94,7 +96,7 @@ ModEntry(i) == IF Detect(SD(i)[2]) = "" THEN SD(i)[2][1] ELSE Detect(SD(i)[2])
 VARIABLES gi, en, done
 vars == <<gi, en, done>>
 
-Init == /\ \/ (gi \in 1..5 /\ en \in 1..Len(Entries(gi)))
+Init == /\ \/ (gi \in {1, 2, 3, 4, 5, 9} /\ en \in 1..Len(Entries(gi)))
            \/ (gi \in {6, 7} /\ en = 1)           \* 6: curried class entry, unnamed; 7: the same in a named grammar
            \/ (gi \in 11..18 /\ en = 1)          \* start-rule detection: SD(1..4) without / with ignore
         /\ done = FALSE
@@ -109,7 +111,7 @@ Step == /\ ~done
            ELSE IF gi \in {6, 7}
            THEN PrintT(ToJson([g |-> GP, cfg |-> IF gi = 7 THEN [prop |-> "C08", name |-> "vg_c08"] ELSE [prop |-> "C08"],
                                runs |-> CurriedRuns(AllPos(TextSeqUpTo(<<a, b>>, 3), 1, 0))]))
-           ELSE EmitCasePos(Grammar(gi), IF gi = 5 THEN [prop |-> "C08", bytes |-> TRUE] ELSE [prop |-> "C08"],
+           ELSE EmitCasePos(Grammar(gi), IF gi \in {5, 9} THEN [prop |-> "C08", bytes |-> TRUE] ELSE [prop |-> "C08"],
                        <<Entries(gi)[en]>>, AllPos(Texts(gi), 1, 0))
 
 Next == Step
